@@ -60,6 +60,7 @@ type Contract struct {
 	GhostOut    []string
 	Ghosts      []*GhostStmt
 	AtCall      map[string][]*Clause // extra preconditions this function imposes on its calls to a given callee
+	AtCallAssume map[string][]*Clause // facts this function assumes after its calls to a given callee (old() = state before the call); trusted
 	RelyMod     []string  // rely modifies: what other goroutines may change at yield points
 	RelyEns     []*Clause // rely ensures: two-state facts about such a change (old = before, current = after)
 	DefParams   []string // define: parameter names
@@ -68,7 +69,7 @@ type Contract struct {
 
 var clauseKW = map[string]bool{"func": true, "closure": true, "iface": true, "extern": true, "typeinv": true, "lemma": true,
 	"results": true, "requires": true, "ensures": true, "modifies": true, "loop": true, "ghost": true, "trusted": true,
-	"strictslice": true, "pure": true, "maypanic": true, "flag": true, "props": true, "nooverflow": true, "property": true, "ghostout": true, "define": true, "is": true, "axiom": true, "rely": true, "atcall": true, "fieldrange": true}
+	"strictslice": true, "pure": true, "maypanic": true, "flag": true, "props": true, "nooverflow": true, "property": true, "ghostout": true, "define": true, "is": true, "axiom": true, "rely": true, "atcall": true, "fieldrange": true, "modset": true}
 
 var headRe = regexp.MustCompile(`^(requires|ensures|invariant|decreases)(\[[^\]]*\])?\s*(.*)$`)
 
@@ -82,6 +83,7 @@ type PropertyDecl struct {
 }
 
 type ContractSet struct {
+	ModSets map[string][]string
 	FieldRange map[string][2]string // heap name -> assumed [lo, hi] of every value stored in that field
 	ByTarget map[string]*Contract
 	Order    []string
@@ -148,6 +150,43 @@ func loadContracts(dirs map[string]string) (*ContractSet, error) {
 			}
 		}
 	}
+	// expand modset(NAME) in every location list
+	var expand func(in []string, depth int) ([]string, error)
+	expand = func(in []string, depth int) ([]string, error) {
+		var out []string
+		for _, l := range in {
+			t := strings.TrimSpace(l)
+			if strings.HasPrefix(t, "modset(") && strings.HasSuffix(t, ")") {
+				name := strings.TrimSpace(t[7 : len(t)-1])
+				ms, ok := cs.ModSets[name]
+				if !ok || depth > 5 {
+					return nil, fmt.Errorf("unknown modset %q", name)
+				}
+				sub, err := expand(ms, depth+1)
+				if err != nil {
+					return nil, err
+				}
+				out = append(out, sub...)
+				continue
+			}
+			out = append(out, l)
+		}
+		return out, nil
+	}
+	for _, c := range cs.ByTarget {
+		var err error
+		if c.Modifies, err = expand(c.Modifies, 0); err != nil {
+			return nil, fmt.Errorf("%s: %v", c.Pos, err)
+		}
+		if c.RelyMod, err = expand(c.RelyMod, 0); err != nil {
+			return nil, fmt.Errorf("%s: %v", c.Pos, err)
+		}
+		for k, v := range c.LoopMod {
+			if c.LoopMod[k], err = expand(v, 0); err != nil {
+				return nil, fmt.Errorf("%s: %v", c.Pos, err)
+			}
+		}
+	}
 	return cs, nil
 }
 
@@ -203,6 +242,21 @@ func (cs *ContractSet) addClause(cur **Contract, pkgPath, pos, text string) erro
 	}
 	rest := strings.TrimSpace(strings.TrimPrefix(text, kw))
 	switch kw {
+	case "modset":
+		// modset NAME loc, loc, ...   (a named list of variable-free locations; used as modset(NAME) in modifies clauses)
+		if len(fields) < 3 {
+			return fmt.Errorf("%s: modset NAME loc, ...", pos)
+		}
+		r := strings.TrimSpace(strings.TrimPrefix(rest, fields[1]))
+		if cs.ModSets == nil {
+			cs.ModSets = map[string][]string{}
+		}
+		for _, x := range splitTop(r, ',') {
+			if x = strings.TrimSpace(x); x != "" {
+				cs.ModSets[fields[1]] = append(cs.ModSets[fields[1]], x)
+			}
+		}
+		return nil
 	case "fieldrange":
 		// fieldrange pkg.Struct.field lo hi   (an assumption, listed in the trusted base)
 		if len(fields) != 4 {
@@ -315,21 +369,31 @@ func (cs *ContractSet) addClause(cur **Contract, pkgPath, pos, text string) erro
 	case "atcall":
 		// atcall <callee> requires[label] E
 		i := strings.Index(rest, " requires")
+		kwd := " requires"
 		if i < 0 {
-			return fmt.Errorf("%s: atcall <callee> requires E", pos)
+			i = strings.Index(rest, " assumes")
+			kwd = " assumes"
+		}
+		if i < 0 {
+			return fmt.Errorf("%s: atcall <callee> requires|assumes E", pos)
 		}
 		callee := strings.TrimSpace(rest[:i])
-		cl, err := mk("requires", strings.TrimSpace(rest[i+len(" requires"):]), 0)
+		cl, err := mk("requires", strings.TrimSpace(rest[i+len(kwd):]), 0)
 		if err != nil {
 			return err
 		}
 		if c.AtCall == nil {
 			c.AtCall = map[string][]*Clause{}
+			c.AtCallAssume = map[string][]*Clause{}
 		}
 		if !(strings.Count(callee, ".") >= 2 && !strings.HasPrefix(callee, "(")) {
 			callee = qualify(pkgPath, callee)
 		}
-		c.AtCall[callee] = append(c.AtCall[callee], cl)
+		if kwd == " assumes" {
+			c.AtCallAssume[callee] = append(c.AtCallAssume[callee], cl)
+		} else {
+			c.AtCall[callee] = append(c.AtCall[callee], cl)
+		}
 	case "rely":
 		switch {
 		case strings.HasPrefix(rest, "modifies"):
